@@ -36,6 +36,8 @@ pub enum Guard {
     AbsDiff(u32, u32, u32, bool),
     Rel(u32, u32, u32, u32, bool),
     Ulps(u32, u32, u32, u32, bool),
+    /// three-way comparison (`partial_cmp`, used by the derived `PartialOrd` of `Rad`/`Deg`)
+    Cmp(u32, u32, i8),
 }
 
 pub struct Arena {
@@ -257,8 +259,10 @@ impl PartialEq for X {
 }
 impl PartialOrd for X {
     fn partial_cmp(&self, o: &X) -> Option<Ordering> {
-        // only used by code we do not trace
-        Some(self.val().cmp(&o.val()))
+        // the derived `PartialOrd` of the angle newtypes compares through here
+        let r = self.val().cmp(&o.val());
+        X::guard(Guard::Cmp(self.node(), o.node(), r as i8));
+        Some(r)
     }
     fn lt(&self, o: &X) -> bool {
         let r = self.val().cmp(&o.val()) == Ordering::Less;
